@@ -27,5 +27,7 @@ def run(ck):
         traces.append(dbgen.gen_mailbox_trace(ck.rng, length=25))
     if not ok:
         return
+    ncorp = len(dbprops.load_corpus("C09"))
+    traces = traces[:ncorp] + [dbgen.with_lag(ck.rng, t, 0.4) for t in traces[ncorp:]]    # a follower lagging across launch / clearing / deadline
     dbprops.run_db_property(ck, eng, traces, [dbprops.mon_c09], with_replicas=True, nontrivial=nontrivial)
     ck.sample({"trace": dbengine.trace_to_json(traces[1][:12])})
